@@ -88,8 +88,8 @@ def _recover_hung(args):
     hung = out + ".hung"
     if not os.path.exists(hung):
         return False
-    hl = [l for l in open(hung).read().splitlines() if l.strip()]
-    disk = [l for l in open(out, errors="replace").read().splitlines() if l.strip()] if os.path.exists(out) else []
+    hl = [l for l in open(hung).read().split("\n") if l.strip()]
+    disk = [l for l in open(out, errors="replace").read().split("\n") if l.strip()] if os.path.exists(out) else []
     # drop a torn last line and whatever the disk already holds of the scenario in progress
     if disk:
         try:
@@ -109,7 +109,7 @@ def _recover_hung(args):
     if "--dump-scenarios" in args:
         dp = args[args.index("--dump-scenarios") + 1]
         if os.path.exists(dp):
-            dl = open(dp).read().splitlines()
+            dl = open(dp).read().split("\n")
             with open(dp, "w") as f:
                 f.write("\n".join(dl[:max(nscen, 1)]) + "\n")
     log(f"[zv] the code under test made no progress for 30 s: scenario #{nscen} recorded as hung")
@@ -281,7 +281,8 @@ def tlc_counterexample(out, limit=60):
 
 def read_lines(path):
     with open(path) as f:
-        return [l for l in f.read().splitlines() if l.strip()]
+        # only LF ends a record (str.splitlines would also split at U+0085, U+2028, ... inside JSON strings)
+        return [l for l in f.read().split("\n") if l.strip()]
 
 
 def split_scenarios(trace_lines):
